@@ -87,7 +87,9 @@ func newDuplexHTTPCall(
 // Write to the request body. Returns an error wrapping io.EOF after SetError
 // is called.
 func (d *duplexHTTPCall) Write(data []byte) (int, error) {
+	verifYield(d.ctx, "write.enter")
 	d.ensureRequestMade()
+	verifYield(d.ctx, "write.ctxcheck")
 	// Before we send any data, check if the context has been canceled.
 	if err := d.ctx.Err(); err != nil {
 		d.SetError(err)
@@ -95,7 +97,9 @@ func (d *duplexHTTPCall) Write(data []byte) (int, error) {
 	}
 	// It's safe to write to this side of the pipe while net/http concurrently
 	// reads from the other side.
+	verifYield(d.ctx, "write.pipe")
 	bytesWritten, err := d.requestBodyWriter.Write(data)
+	verifYield(d.ctx, "write.done")
 	if err != nil && errors.Is(err, io.ErrClosedPipe) {
 		// Signal that the stream is closed with the more-typical io.EOF instead of
 		// io.ErrClosedPipe. This makes it easier for protocol-specific wrappers to
@@ -111,6 +115,7 @@ func (d *duplexHTTPCall) CloseWrite() error {
 	// Even if Write was never called, we need to make an HTTP request. This
 	// ensures that we've sent any headers to the server and that we have an HTTP
 	// response to read from.
+	verifYield(d.ctx, "closewrite.enter")
 	d.ensureRequestMade()
 	// The user calls CloseWrite to indicate that they're done sending data. It's
 	// safe to close the write side of the pipe while net/http is reading from
@@ -123,6 +128,7 @@ func (d *duplexHTTPCall) CloseWrite() error {
 	// forever. To make sure users don't have to worry about this, the generated
 	// code for unary, client streaming, and server streaming RPCs must call
 	// CloseWrite automatically rather than requiring the user to do it.
+	verifYield(d.ctx, "closewrite.pipe")
 	return d.requestBodyWriter.Close()
 }
 
@@ -153,6 +159,7 @@ func (d *duplexHTTPCall) Read(data []byte) (int, error) {
 	if d.response == nil {
 		return 0, fmt.Errorf("nil response from %v", d.request.URL)
 	}
+	verifYield(d.ctx, "read.body")
 	n, err := d.response.Body.Read(data)
 	return n, wrapIfRSTError(err)
 }
@@ -162,9 +169,11 @@ func (d *duplexHTTPCall) CloseRead() error {
 	if d.response == nil {
 		return nil
 	}
+	verifYield(d.ctx, "closeread.discard")
 	if err := discard(d.response.Body); err != nil {
 		return wrapIfRSTError(err)
 	}
+	verifYield(d.ctx, "closeread.close")
 	return wrapIfRSTError(d.response.Body.Close())
 }
 
@@ -200,6 +209,7 @@ func (d *duplexHTTPCall) ResponseTrailer() http.Header {
 // Write return an error wrapping io.EOF. It's safe to call concurrently with
 // any other method.
 func (d *duplexHTTPCall) SetError(err error) {
+	verifYield(d.ctx, "seterror.enter")
 	d.errMu.Lock()
 	if d.err == nil {
 		d.err = wrapIfContextError(err)
@@ -215,6 +225,7 @@ func (d *duplexHTTPCall) SetError(err error) {
 	//
 	// It's safe to ignore the returned error here. Under the hood, Close calls
 	// CloseWithError, which is documented to always return nil.
+	verifYield(d.ctx, "seterror.pipe")
 	_ = d.requestBodyReader.Close()
 }
 
@@ -226,6 +237,7 @@ func (d *duplexHTTPCall) SetValidateResponse(validate func(*http.Response) *Erro
 
 func (d *duplexHTTPCall) BlockUntilResponseReady() {
 	<-d.responseReady
+	verifYield(d.ctx, "ready.woken")
 }
 
 func (d *duplexHTTPCall) ensureRequestMade() {
@@ -238,10 +250,13 @@ func (d *duplexHTTPCall) makeRequest() {
 	// This runs concurrently with Write and CloseWrite. Read and CloseRead wait
 	// on d.responseReady, so we can't race with them.
 	defer close(d.responseReady)
+	defer verifYield(d.ctx, "request.finish")
+	verifYield(d.ctx, "request.enter")
 
 	// Once we send a message to the server, they send a message back and
 	// establish the receive side of the stream.
 	response, err := d.httpClient.Do(d.request)
+	verifYield(d.ctx, "request.done")
 	if err != nil {
 		err = wrapIfContextError(err)
 		err = wrapIfLikelyH2CNotConfiguredError(d.request, err)
@@ -258,6 +273,7 @@ func (d *duplexHTTPCall) makeRequest() {
 		d.SetError(err)
 		return
 	}
+	verifYield(d.ctx, "request.validated")
 	if (d.streamType&StreamTypeBidi) == StreamTypeBidi && response.ProtoMajor < 2 {
 		// If we somehow dialed an HTTP/1.x server, fail with an explicit message
 		// rather than returning a more cryptic error later on.
